@@ -102,11 +102,13 @@ def hx(b):
     return bytes(b).hex() if len(b) else "X"
 
 
-def parse_text_line(rng, d, s, style=None, arg=None):
+def parse_text_line(rng, d, s, style=None, arg=None, zone=None):
     """a foreign rendering of the instant (d, s): designator or numeric offset, optional fraction"""
     style = style or rng.choice(FMTS)
     zlit, sign, zh, zm = "", 0, 0, 0
-    if rng.random() < 0.4:
+    if zone is not None:
+        sign, zh, zm = zone
+    elif rng.random() < 0.4:
         zlit = rng.choice(ZL_RFC if style == "rfc822" else ZL_ISO)
     else:
         sign = rng.choice([1, -1])
@@ -114,7 +116,8 @@ def parse_text_line(rng, d, s, style=None, arg=None):
                              (rng.randrange(24), rng.randrange(60))])
     off = sign * (zh * 3600 + zm * 60)
     loc = d * 86400 + s + off                     # local fields = instant + offset
-    if loc < 0 or loc >= (MAXDAY + 1) * 86400:
+    # the local fields may lie on the last day of 1969 (an instant of 1970 seen from west of Greenwich), not beyond 9999
+    if loc < -86400 or loc >= (MAXDAY + 1) * 86400:
         sign, off = -sign, -off
         loc = d * 86400 + s + off
     ld, ls = divmod(loc, 86400)
@@ -215,6 +218,20 @@ def run(ctx):
         for style in FMTS:
             for _ in range(60):
                 lines.append(parse_text_line(rng, d, s, style=style))
+    # the first hours of 1970 seen from west of Greenwich: local fields on 1969-12-31, in particular 23:59:59 (the second
+    # before the epoch) with the offset that puts the instant inside the range again
+    for k in (1, 30, 60, 90, 330, 720, 839, 1439):
+        for style in FMTS:
+            lines.append(parse_text_line(rng, 0, k * 60 - 1, style=style, zone=(-1, k // 60, k % 60)))
+            lines.append(parse_text_line(rng, 0, k * 60 - 1, style=style, zone=(-1, 23, 59)))
+            lines.append(parse_text_line(rng, 0, rng.randrange(0, k * 60), style=style, zone=(-1, k // 60, k % 60)))
+    execs += [["RESET"] + lines[i:i + 70] for i in range(0, len(lines), 70)]
+    # instants finer than the millisecond grid (aws_date_time_init_epoch_secs takes a double): fractions next to the grid
+    # points and next to a full second
+    lines = []
+    for d, s in [(0, 0), (11962, 31509), (11016, 86398), (30000, 12345)] + [(dd, ss) for dd, ss in rnd[:12] if ss < 86399 and dd < 60000]:
+        for us in (0, 1, 499, 500, 501, 999, 1000, 1499, 1500, 499999, 500000, 999000, 999400, 999499, 999500, 999501, 999600, 999999):
+            lines.append("INITSECU %d %d" % (d * 86400 + s, us))
     execs += [["RESET"] + lines[i:i + 70] for i in range(0, len(lines), 70)]
     caps = []
     for d, s in [(0, 0), (MAXDAY, 86399)] + rnd[:20]:
